@@ -113,9 +113,15 @@ def tlc_mc(module, cfg, wd, workers=8, xmx="6g", timeout=1500, simulate=None, de
     res = {"module": module, "cfg": cfg, "wall_s": round(time.time() - t, 1), "actions": {}, "log": out,
            "generated": 0, "distinct": 0, "depth": 0, "replays": 0, "error": None, "prints": [], "universe": None, "blobs": {}}
     fc = open(cases_out, "a") if cases_out else None
+    seen_replays = set()
     with open(out, errors="replace") as f:
         for line in f:
             if line.startswith('<<"REPLAY", '):
+                # TLC evaluates the printing invariant on every generated state: the same behaviour may be printed more than once
+                hl = hash(line)
+                if hl in seen_replays:
+                    continue
+                seen_replays.add(hl)
                 res["replays"] += 1
                 if fc:
                     s = line.rstrip("\n")
